@@ -591,7 +591,11 @@ def run(ctx):
         for r in returns(f):
             if ret_text(f, r) in ("instance", "std::move(instance)") or "instance" == ret_text(f, r):
                 g = fl_.guards(r)
-                init_ok = any((k in ("(0 == ret)", "(ret == 0)") and p is True) or (k == "ret" and p is False) for k, p in g)
+                # the local that receives initPlugin()'s result, whatever it is called (or the call itself used as the condition)
+                rn_ = locals_receiving(f, r"initPlugin\(") or ["ret"]
+                init_ok = any((k in ["(0 == %s)" % x for x in rn_] + ["(%s == 0)" % x for x in rn_] and p is True) or (k in rn_ and p is False) or
+                              (re.match(r"^\(0 == .*->initPlugin\(.*\)\)$|^\(.*->initPlugin\(.*\) == 0\)$", k) and p is True) or
+                              (re.match(r"^[\w>-]+initPlugin\(.*\)$", k) and p is False) for k, p in g)
                 ctx.check(has_fact(g, False, "plugin.name.empty()") and has_fact(g, True, "instance") and init_ok,
                           "plugin-accepted-only-if-named-known-and-initialised:" + f.d.get("ret", "")[-24:], "guarded_by", f.loc(r),
                           "a plugin is accepted only if named, registered and init() returned 0",
